@@ -234,7 +234,7 @@ func runC15(ctx *Ctx) {
 	sqn0, amf0 := hx("ff9bb4d0b607"), hx("b9b9")
 	r.Rule = fmt.Sprintf("f1..f5*/OPc/AUTN: one-at-a-time sweeps of K, OP, RAND over {35.207 set 1, zero, ones, counting, %d one-hot} with the others at 3 bases, AMF all 65536, SQN alphabet; "+
 		"Milenage_check: full product of 8x8 (network SQN, UE SQN) x 3 (K,OP,RAND) triples x AMF{0000,8000,b9b9,ffff}; for every valid AUTN every single-bit (128) and single-octet (16x255) corruption; same for AUTS (112 bits, 14x255); "+
-		"every f1..f5* case also in one sequential history in which the caller overwrites one buffer per argument in place; oracle: refcrypto verdict (accept iff MAC-A right and SQN greater; stale SQN -> AUTS that verifies and yields the UE SQN); non-trivial = all (distinct case strings hashed)", onehot)
+		"every f1..f5* case also in one sequential history in which the caller overwrites one buffer per argument in place, and consecutive calls with related inputs (same K under two OPs with RAND2 = RAND1 xor OPc1 xor OPc2, i.e. equal first-pass blocks; same OPc and RAND under two keys); oracle: refcrypto verdict (accept iff MAC-A right and SQN greater; stale SQN -> AUTS that verifies and yields the UE SQN); non-trivial = all (distinct case strings hashed)", onehot)
 	r.Assume("refcrypto Milenage anchored on all eight values of TS 35.207 test set 1", "128-bit values outside the structured alphabet are not enumerated")
 	ks, ops, rands := vec128(k0, onehot), vec128(op0, onehot), vec128(rand0, onehot)
 	var ins []c15in
@@ -287,6 +287,35 @@ func runC15(ctx *Ctx) {
 			copy(bamf, in.amf)
 			c15funcs(r, lr, c15in{bk, bop, brand, bsqn, bamf})
 		}
+		c15keyTag = "/related-consecutive-inputs"
+		// consecutive calls whose intermediate blocks coincide although the inputs differ: the same K under two OPs with
+		// RAND2 = RAND1 xor OPc1 xor OPc2 (equal input to the first AES pass), the same OPc and RAND under two keys,
+		// the same K and RAND under two OPs; each pair in both orders and repeated
+		xor16 := func(a, b, c []byte) []byte {
+			o := make([]byte, 16)
+			for i := range o {
+				o[i] = a[i] ^ b[i] ^ c[i]
+			}
+			return o
+		}
+		nrel := 0
+		for bi, b := range bases {
+			for oi := 0; oi < 6; oi++ {
+				op2 := ops[(bi+oi+1)%len(ops)]
+				if bytes.Equal(op2, b[1]) {
+					continue
+				}
+				r2 := xor16(b[2], refcrypto.OPc(b[0], b[1]), refcrypto.OPc(b[0], op2))
+				a1, a2 := c15in{b[0], b[1], b[2], sqn0, amf0}, c15in{b[0], op2, r2, sqn0, amf0}
+				k2 := ks[(bi+oi+2)%len(ks)]
+				a3, a4 := c15in{k2, b[1], b[2], sqn0, amf0}, c15in{b[0], op2, b[2], sqn0, amf0}
+				for _, in := range []c15in{a1, a2, a1, a2, a2, a1, a3, a1, a4, a1, a2, a4, a2} {
+					c15funcs(r, lr, in)
+					nrel++
+				}
+			}
+		}
+		r.Set("related_consecutive_inputs", nrel)
 		c15keyTag = ""
 		lr.Merge()
 		r.Sample("reused buffers: funcs(K1,..) then the same K slice overwritten with K2, funcs(K2,..) ...")
